@@ -474,18 +474,18 @@ package spdxexp
 
 //@ func getLicenseRange
 //@   modifies nothing
-//@   ensures[C02,C11] result == nil <==> !InT(simp(id))
-//@   ensures[C02,C11] result != nil ==> result.location != nil && has(result.location, 0) && has(result.location, 1) && result.location[0] == Fam(simp(id)) && result.location[1] == Ver(simp(id))
+//@   ensures[C02,C11,C08] result == nil <==> !InT(simp(id))
+//@   ensures[C02,C11,C08] result != nil ==> result.location != nil && has(result.location, 0) && has(result.location, 1) && result.location[0] == Fam(simp(id)) && result.location[1] == Ver(simp(id))
 //@   loop 0:
-//@     invariant[C02,C11] allRanges == old(allRanges)
-//@     invariant[C02,C11] forall i, j, k {RangeAt(i, j, k)} :: 0 <= i && i < $i ==> !atPos(simp(id), i, j, k)
+//@     invariant[C02,C11,C08] allRanges == old(allRanges)
+//@     invariant[C02,C11,C08] forall i, j, k {RangeAt(i, j, k)} :: 0 <= i && i < $i ==> !atPos(simp(id), i, j, k)
 //@   loop 1:
-//@     invariant[C02,C11] forall i, j, k {RangeAt(i, j, k)} :: 0 <= i && i < $i0 ==> !atPos(simp(id), i, j, k)
-//@     invariant[C02,C11] forall j, k {RangeAt($i0, j, k)} :: 0 <= j && j < $i ==> !atPos(simp(id), $i0, j, k)
+//@     invariant[C02,C11,C08] forall i, j, k {RangeAt(i, j, k)} :: 0 <= i && i < $i0 ==> !atPos(simp(id), i, j, k)
+//@     invariant[C02,C11,C08] forall j, k {RangeAt($i0, j, k)} :: 0 <= j && j < $i ==> !atPos(simp(id), $i0, j, k)
 //@   loop 2:
-//@     invariant[C02,C11] forall i, j, k {RangeAt(i, j, k)} :: 0 <= i && i < $i0 ==> !atPos(simp(id), i, j, k)
-//@     invariant[C02,C11] forall j, k {RangeAt($i0, j, k)} :: 0 <= j && j < $i1 ==> !atPos(simp(id), $i0, j, k)
-//@     invariant[C02,C11] forall k {RangeAt($i0, $i1, k)} :: 0 <= k && k < $i ==> !atPos(simp(id), $i0, $i1, k)
+//@     invariant[C02,C11,C08] forall i, j, k {RangeAt(i, j, k)} :: 0 <= i && i < $i0 ==> !atPos(simp(id), i, j, k)
+//@     invariant[C02,C11,C08] forall j, k {RangeAt($i0, j, k)} :: 0 <= j && j < $i1 ==> !atPos(simp(id), $i0, j, k)
+//@     invariant[C02,C11,C08] forall k {RangeAt($i0, $i1, k)} :: 0 <= k && k < $i ==> !atPos(simp(id), $i0, $i1, k)
 //@ end
 
 // ---------------------------------------------------------------------------
@@ -565,7 +565,7 @@ package spdxexp
 //@ func (*nodePair).licensesAreCompatible
 //@   requires nodes != nil && nodes.firstNode != nil && nodes.secondNode != nil
 //@   modifies nothing
-//@   ensures[C02,C01,C11] result <==> (licMatch(nodes.firstNode.tree, nodes.secondNode.tree) || (isTLic(nodes.firstNode.tree) && isTLic(nodes.secondNode.tree) && excOK(nodes.firstNode.tree, nodes.secondNode.tree) && EqualFold(reconT(nodes.firstNode.tree), reconT(nodes.secondNode.tree))))
+//@   ensures[C02,C01,C11,C08] result <==> (licMatch(nodes.firstNode.tree, nodes.secondNode.tree) || (isTLic(nodes.firstNode.tree) && isTLic(nodes.secondNode.tree) && excOK(nodes.firstNode.tree, nodes.secondNode.tree) && EqualFold(reconT(nodes.firstNode.tree), reconT(nodes.secondNode.tree))))
 //@ end
 
 //@ func (*nodePair).licenseRefsAreCompatible
